@@ -460,6 +460,7 @@ pub fn run<K: SimKernel<D>, const D: usize>(
             }
         }
         let out = execute(&mut world, header, &oprec);
+        stats.faults_armed += oprec.faults.len() as u64;
         record_outcome(&mut stats, &oprec.op, &out);
         stats.steps += 1;
         let post_slot = match &oprec.op {
